@@ -172,6 +172,7 @@ class Monitor:
         self.seq = 0
         self.recent = []  # last rotate_tetrahedral calls with the moved atom objects
         self.dihedral_calls = 0
+        self.bio = None
         self.dihedral_hist = {}  # (residue, dihedral index) -> numbers of added hydrogens the residue had at the calls
         self.dihedral_fail = []  # Debump.set_dihedral_angle calls whose moved set is not the current subtree
         self.choices = []  # rebuild_tetrahedral numbonds == 3: the +120 / +240 choice
@@ -290,6 +291,18 @@ class Monitor:
             return r
 
         patch(pdebump.Debump, "set_dihedral_angle", w_sda)
+
+        from pdb2pqr import biomolecule as pbio
+
+        orig_aff = pbio.Biomolecule.__dict__["apply_force_field"]
+
+        def w_aff(self_, *a, **k):
+            # parameter assignment starts only after repair, hydrogen addition, debumping and optimisation are complete:
+            # the biomolecule as built, also when the run gives up from here on (e.g. on a non-integral total charge)
+            mon.bio = self_
+            return orig_aff(self_, *a, **k)
+
+        patch(pbio.Biomolecule, "apply_force_field", w_aff)
         return self
 
     def __exit__(self, *a):
@@ -469,6 +482,17 @@ def check_added_atoms(ctx, bio, label, case, stats=None):
     nfail = 0
     for res in bio.residues:
         ref = getattr(res, "reference", None)
+        # no atom present twice under its aliases (template altnames; OP1/OP2 are the v3 spellings of O1P/O2P)
+        if ref is not None:
+            for alt, tgt in list(getattr(ref, "altnames", {}).items()) + [("OP1", "O1P"), ("OP2", "O2P")]:
+                x, y = res.get_atom(alt), res.get_atom(tgt)
+                if x is not None and y is not None and x is not y and (getattr(x, "added", 0) or getattr(y, "added", 0)):
+                    new = x if getattr(x, "added", 0) else y
+                    inf = getattr(new, "_c05", None) or {"site": "unmonitored"}
+                    nfail += 1
+                    ctx.fail({"site": inf["site"], "field": "alias-duplicate", "condition": "atom-present-under-two-names", "atom": "H" if new.name.startswith("H") else "heavy"},
+                             f"{label}: {res} carries {alt} and {tgt} (the same template atom; {new.name} was added at {inf['site']}, {math.dist(x.coords, y.coords):.3f} A apart)",
+                             dict(case, residue=str(res), atom=new.name, field="alias-duplicate"))
         for a in res.atoms:
             if not getattr(a, "added", 0):
                 continue
@@ -480,7 +504,7 @@ def check_added_atoms(ctx, bio, label, case, stats=None):
             def fail(field, cond, what, extra=None):
                 nonlocal nfail
                 nfail += 1
-                sig = {"site": site, "field": field, "condition": cond, "atom": kind, "residue-class": type(res).__name__ if type(res).__name__ in ("WAT", "LIG") else ("nucleic" if hasattr(res, "naname") and getattr(res, "naname", None) else "amino")}
+                sig = {"site": site, "field": field, "condition": cond, "atom": kind, "residue-class": type(res).__name__ if type(res).__name__ in ("WAT", "LIG") else ("nucleic" if type(res).__module__.endswith(".na") else "amino")}
                 ctx.fail(sig, f"{label}: {res} {a.name} (added at {site}): {what}", dict(case, residue=str(res), atom=a.name, field=field, **(extra or {})))
 
             # (1) not coincident with another atom of its residue
@@ -631,6 +655,10 @@ def check_dihedral_moves(ctx, mon, label, case):
 
 
 def judge_run(ctx, bio, mon, label, case, stats=None):
+    if getattr(mon, "aborted", None):
+        ctx.count("run:judged-as-built-after-abort")
+        label = f"{label} (run gave up after placement: {mon.aborted})"
+        case = dict(case, aborted=mon.aborted)
     return check_dihedral_moves(ctx, mon, label, case) + check_fit_neighbours(ctx, mon.fits, label, case) + check_added_atoms(ctx, bio, label, case, stats)
 
 
@@ -643,6 +671,12 @@ def run_text(ctx, pdb_text, args):
     with Monitor() as mon:
         r = B.run_pdb2pqr(pdb_text, args, workdir=wd)
     bio = r["result"][2] if r["result"] else None
+    mon.aborted = None
+    if bio is None and mon.bio is not None and r["exc"] is not None:
+        # the run gave up AFTER atoms were placed (charge check, parameter assignment): the placements are judged as built
+        cause = getattr(r["exc"], "__cause__", None) or r["exc"]
+        mon.aborted = f"{type(cause).__name__}: {str(cause)[:100]}"
+        bio = mon.bio
     return bio, mon, r["exc"]
 
 
@@ -742,6 +776,7 @@ def build_cases(ctx):
     cases += break_cases(ctx, rng, nrng)
     cases += threshold_cases(ctx, rng, nrng)
     cases += history_cases(ctx, rng, nrng)
+    cases += nucleotide_cases(ctx, rng, nrng)
     cases += hydrogen_pattern_cases(ctx, rng, nrng)
     cases += truncation_cases(ctx, rng, nrng)
     return cases
@@ -1042,6 +1077,64 @@ def history_cases(ctx, rng, nrng):
     return cases
 
 
+def nucleotide_cases(ctx, rng, nrng):
+    """Heavy-atom rebuilds and hydrogen placement on NUCLEOTIDES: DNA and RNA strands (5', internal, 3' positions), every
+    single heavy atom removed in turn (one atom in each nucleotide per run, different atoms), some bonded pairs, in the
+    naming conventions pdb2pqr accepts and their mixes: OP1/OP2 (v3, handled by name in biomolecule.py), O1P/O2P (template),
+    one of each, O5* ... for O5' ... and C5M for C7 (template altnames)."""
+    cases = []
+    styles = ("v3", "template", "mixed", "star")
+
+    def restyle(atoms, style):
+        out = []
+        for a in atoms:
+            nm = a.name
+            if style == "mixed":
+                if a.resseq == 2 and nm == "OP2":
+                    nm = "O2P"
+                if a.resseq == 3 and nm == "OP1":
+                    nm = "O1P"
+            if style == "star":
+                nm = "C5M" if nm == "C7" else nm.replace("'", "*")
+            out.append(a if nm == a.name else B.replace(a, name=nm))
+        return out
+
+    n = 0
+    for rna in (False, True):
+        base = list("ACGU" if rna else "ACGT")
+        rng.shuffle(base)
+        for arrangement in range(2 if ctx.thorough else 1):
+            seq = base[arrangement:] + base[:arrangement]
+            probe = B.build_strand(seq, rna=rna)
+            nmax = max(len(r) for r in B.residues_of(probe))
+            for k in range(nmax):
+                style = styles[(k + arrangement) % 4]
+                args = [["--ff=CHARMM"], ["--ff=AMBER"], ["--ff=CHARMM", "--nodebump", "--noopt"], ["--ff=AMBER", "--nodebump"]][n % 4]
+                st = restyle(B.build_strand(seq, rna=rna, phosphate_names="O_P" if style == "template" else "OP", five_prime_phosphate=(k % 5 == 4 and "AMBER" in args[0]), rotation=B.random_rotation(nrng)), style)
+                gone = set()
+                for i, res in enumerate(B.residues_of(st)):
+                    names = [a.name for a in res]
+                    gone.add((res[0].resseq, names[(k + 6 * i) % len(names)]))
+                cut = B.reserial(B.delete_atoms(st, lambda a, gone=gone: (a.resseq, a.name) in gone))
+                lab = f"{'RNA' if rna else 'DNA'} {''.join(seq)} ({style} names) without " + ", ".join(f"{nm}({rs})" for rs, nm in sorted(gone))
+                cases.append((lab, B.to_pdb(cut), args, "nucleotide"))
+                n += 1
+            # bonded pairs missing in the two internal nucleotides
+            for k in range(0, nmax - 1, 3 if not ctx.thorough else 1):
+                style = styles[(k // 3) % 4]
+                st = restyle(B.build_strand(seq, rna=rna, phosphate_names="O_P" if style == "template" else "OP"), style)
+                gone = set()
+                for i, res in enumerate(B.residues_of(st)):
+                    if i in (1, 2):
+                        names = [a.name for a in res]
+                        gone |= {(res[0].resseq, names[(k + 5 * i) % len(names)]), (res[0].resseq, names[(k + 5 * i + 1) % len(names)])}
+                cut = B.reserial(B.delete_atoms(st, lambda a, gone=gone: (a.resseq, a.name) in gone))
+                lab = f"{'RNA' if rna else 'DNA'} {''.join(seq)} ({style} names) without " + ", ".join(f"{nm}({rs})" for rs, nm in sorted(gone))
+                cases.append((lab, B.to_pdb(cut), [["--ff=AMBER"], ["--ff=CHARMM"]][n % 2], "nucleotide-pair"))
+                n += 1
+    return cases
+
+
 def side_chain_depths(resname):
     """{heavy side-chain atom: bond distance from CA} (template graph without N, C, O)."""
     bonds = B.template_bonds(resname)
@@ -1310,7 +1403,8 @@ def run(ctx):
         bio, mon, exc = run_text(ctx, text, args)
         ctx.count(f"run:{kind}")
         if bio is None:
-            ctx.notes.append(f"{label} {' '.join(args)}: {type(exc).__name__}: {str(exc)[:160]}")
+            cause = getattr(exc, "__cause__", None) or exc
+            ctx.notes.append(f"{label} {' '.join(args)}: {type(cause).__name__}: {str(cause)[:160]}")
             ctx.count("run:failed")
             continue
         for r in mon.fits:
